@@ -16,10 +16,11 @@ wrap-and-sort as it runs.
 * `C13_total_small`: on a well-formed field all of whose versions have numeric components within
   `i32` (`hasBigNumber f.tree = false`, the trigger predicate of the driver), `relationsWrapO` does
   not panic and returns the tree of `C13_total` — all C13 theorems apply to the real call.
-* `C13_total_nopanic`: the same from the weaker hypothesis that no two versions of the field make
-  `compareO` panic.
 * `C13_panic_witness`: `a (>= 3000000000), a (>= 3000000001), b` is well-formed, the total model
-  normalises it, `relationsWrapO` panics (F-C13-2).
+  normalises it, `relationsWrapO` panics (F-C13-2); the hypothesis of `C13_total_small` cannot be
+  dropped.  It is sufficient, not necessary: `a (>= 3000000000), b` never compares the version.
+  (A hypothesis "no two versions of the field make `compareO` panic" would not be weaker in any
+  useful way: `compareO v v` panics as soon as `v` has a component above `i32::MAX`.)
 -/
 set_option linter.unusedSimpArgs false
 set_option linter.unusedVariables false
@@ -420,5 +421,67 @@ theorem C13_total_small_view (f : FieldA) (h : f.WF)
     relationsWrapO f.tree = .ok (outTree f) :=
   relationsWrapWith_field compareO f h (fun v w ⟨e, he, r, hr, c, hv⟩ ⟨e', he', r', hr', c', hw⟩ =>
     C12.C12_compareO_small v w (hb e he r hr c v hv) (hb e' he' r' hr' c' w hw))
+
+/-! ## the hypothesis cannot be dropped (F-C13-2); non-vacuity -/
+
+def segA (v : String) (pre : Gap) : Seg :=
+  ⟨pre, .alts ⟨['a'], none, some ⟨[.ws [' ']], [], .GreaterThanEqual, [.ws [' ']], ⟨none, v.toList⟩, []⟩, none, []⟩ [], []⟩
+def segB : Seg := ⟨[.ws [' ']], .alts ⟨['b'], none, none, none, []⟩ [], []⟩
+
+/-- `a (>= 3000000000), a (>= 3000000001), b` -/
+def exBig : FieldA := ⟨[segA "3000000000" [], segA "3000000001" [.ws [' ']], segB]⟩
+
+/-- `a (>= 3000000000), b`: a big number that no comparison reaches -/
+def exBigUnreached : FieldA := ⟨[segA "3000000000" [], segB]⟩
+
+/-- **F-C13-2**: the field is well-formed and is read without error; the model with the total order
+    normalises it (`C13_total`); `Relations::wrap_and_sort` with the real `Version::cmp` panics, at the
+    `unwrap` of debversion.  The panic needs the comparison to reach the number: with `b` in place of
+    the second `a` there is none. -/
+theorem C13_panic_witness :
+    exBig.WF ∧ exBig.str = "a (>= 3000000000), a (>= 3000000001), b".toList
+      ∧ parse "a (>= 3000000000), a (>= 3000000001), b".toList false = ⟨exBig.tree, []⟩
+      ∧ hasBigNumber exBig.tree = true
+      ∧ relationsWrap exBig.tree = .ok (outTree exBig)
+      ∧ (match relationsWrapO exBig.tree with
+          | .panic site => site == "debversion lib.rs:137/143 unwrap: number too large to fit in target type"
+          | .ok _ => false) = true
+      ∧ exBigUnreached.str = "a (>= 3000000000), b".toList
+      ∧ hasBigNumber exBigUnreached.tree = true
+      ∧ (relationsWrapO exBigUnreached.tree).isOk = true := by
+  have hwf : exBig.WF := by decide +kernel
+  refine ⟨hwf, by decide +kernel, ?_, by decide +kernel, C13_total exBig hwf, by decide +kernel,
+    by decide +kernel, by decide +kernel, by decide +kernel⟩
+  have : exBig.str = "a (>= 3000000000), a (>= 3000000001), b".toList := by decide +kernel
+  rw [← this]
+  exact C10.C10_parse_inverts exBig hwf false (Or.inr (by decide +kernel))
+
+/-- the hypotheses of `C13_total_small` are satisfiable: the example field of C13 -/
+theorem ex_small : hasBigNumber ex.tree = false := by decide +kernel
+
+example : relationsWrapO ex.tree = .ok (outTree ex) := C13_total_small ex ex_wf ex_small
+
+example : ∀ e ∈ ex.view, ∀ r ∈ e, ∀ c v, r.version = some (c, v) → small v = true :=
+  fun e he r hr c v hv => fieldVersion_small ex ex_wf ex_small v ⟨e, he, r, hr, c, hv⟩
+
+/-- the real call on the example: canonical text, and idempotent -/
+example : ∃ out, relationsWrapO ex.tree = .ok out ∧ out.text = canonText (outView ex) (outSubst ex) :=
+  ⟨outTree ex, C13_total_small ex ex_wf ex_small, outTree_text ex⟩
+
+example : relationsWrapO ex.tree = .ok (outTree ex) :=
+  C13_total_small_view ex ex_wf
+    (fun e he r hr c v hv => fieldVersion_small ex ex_wf ex_small v ⟨e, he, r, hr, c, hv⟩)
+
+/-- `relationsWrapWith_field` also fires on the field with big numbers, for a comparison that does
+    not panic -/
+example : relationsWrapWith (fun v w => .ok (DebVersion.compare v w)) exBig.tree = .ok (outTree exBig) :=
+  relationsWrapWith_field _ exBig (by decide +kernel) (fun _ _ _ _ => rfl)
+
+example : sortO (fun a b : Nat => Outcome.ok (natCmp a b)) [3, 1, 2] = .ok ([3, 1, 2].mergeSort (leOf natCmp)) :=
+  sortO_ok _ _ _ (fun _ _ _ _ => rfl)
+
+/-- the fuel-driven merge sort is evaluated by the kernel -/
+example : sortO (fun a b : Nat => Outcome.ok (natCmp a b)) [3, 1, 2, 5, 4] = .ok [1, 2, 3, 4, 5] := by
+  decide +kernel
 
 end Deb822Verif.Props.C13
